@@ -326,7 +326,7 @@ func c12Run(rc *RunCtx) *Violation {
 		case 8:
 			return Step{K: "uanswer"}, true
 		case 10:
-			return Step{K: "dev", A: 6, B: r.Intn(3)}, true
+			return Step{K: "dev", A: 6, B: r.Intn(5)}, true
 		default:
 			return Step{K: "uabort"}, true
 		}
@@ -373,17 +373,19 @@ func c12Run(rc *RunCtx) *Violation {
 					if _, mp, ok := mpisOf(t.Value); ok {
 						zero := big.NewInt(0)
 						one := big.NewInt(1)
-						el := []*big.Int{zero, one, new(big.Int).Sub(refotr.P, one)}[s.B%3]
+						// (multiples of p are not reduced on receipt: non-zero, yet without an inverse, and congruent to 0 in every proof)
+						el := []*big.Int{zero, one, new(big.Int).Sub(refotr.P, one), refotr.P, new(big.Int).Lsh(refotr.P, 1)}[s.B%5]
+						isZero := new(big.Int).Mod(el, refotr.P).Sign() == 0
 						switch {
 						case k == "smp2" && len(mp) == 11:
 							mp[6], mp[7] = el, el
 							mp[8] = refotr.SMPHash(5, new(big.Int).Exp(el, big.NewInt(2), refotr.P), new(big.Int).Exp(el, big.NewInt(2), refotr.P))
-							if el.Sign() == 0 {
+							if isZero {
 								mp[8] = refotr.SMPHash(5, zero, zero)
 							}
 						case k == "smp3" && len(mp) == 8:
 							mp[0], mp[1] = el, el
-							if el.Sign() == 0 {
+							if isZero {
 								mp[2] = refotr.SMPHash(6, zero, zero)
 							}
 						}
